@@ -30,6 +30,21 @@ def ranges():
     return ops
 
 
+def multi_reads():
+    """every reading command of the family queued after writes inside MULTI: it must see the state at EXEC
+    time (after the queued writes and after another client's write between queueing and EXEC), not the
+    state at the time it was queued"""
+    from gen_api import hx
+    c = lambda conn, *a: f"resp {conn} " + " ".join(hx(x.encode() if isinstance(x, str) else x) for x in a)
+    ops = ["open a mem", "conn c1", "conn c2"]
+    reads = [("DBSIZE",), ("KEYS", "*"), ("EXISTS", "a", "b", "c"), ("GET", "a"), ("STRLEN", "a"), ("GETRANGE", "a", "0", "-1"), ("MGET", "a", "b"), ("TYPE", "a"),
+             ("GETBIT", "a", "1"), ("BITCOUNT", "a"), ("TTL", "a"), ("SCAN", "0"), ("RANDOMKEY",) if False else ("EXISTS", "a")]
+    for rd in reads:
+        ops += [c("c2", "FLUSHDB"), c("c1", "MULTI"), c("c1", "SET", "a", "1"), c("c1", *rd), c("c1", "APPEND", "a", "23"), c("c1", "SET", "b", "x"), c("c1", *rd),
+                c("c1", "DEL", "a"), c("c1", *rd), c("c2", "SET", "c", "other"), c("c1", "EXEC"), c("c1", *rd)]
+    return ops
+
+
 def run(ctx, proofs_ok):
     apicheck.run_streams(ctx, [
         {"label": "random string/keyspace command streams (embedded API, memory backend)", "fams": ["str", "str", "str", "key"],
@@ -42,3 +57,9 @@ def run(ctx, proofs_ok):
         {"label": "string/keyspace streams on Pebble with eviction and reopen", "fams": ["str", "str", "key"],
          "n": (600, 3000), "count": (1, 6), "backend": "pebble", "events": {"gc": 0.08, "flush": 0.03, "reopen": 0.02}},
     ], extra=[("exhaustive GETRANGE / BITCOUNT / GETBIT windows and SETRANGE / SETBIT offsets on short strings", ranges(), False)])
+    if ctx.violations:
+        return
+    apicheck.run_resp_streams(ctx, [
+        {"label": "string/keyspace commands over the network protocol, with transactions on a second connection", "fams": ["strings", "strings", "keyspace", "tx"],
+         "n": (1200, 5000), "count": (2, 12), "conns": 2},
+    ], extra=[("reading commands queued after writes inside MULTI see the state at EXEC time", multi_reads())], corpus=False)
